@@ -597,12 +597,26 @@ def string_flag_table(helper, pname):
     """private helper `fn(.., name: &str, ..) -> Option<Flag>` written as a match on the (normalised) string:
     `Some(match name { "a" => F::A, .., _ => return None })` or `match name { "a" => Some(F::A), .., _ => None }`.
     Returns ({name: (flag const, line)}, lowered-inside)."""
+    hlets = block_lets(helper["body"])
+    muts = mut_names(helper)
+
+    def through_let(e):
+        """`let flag = match ..; Some(flag)` / `let r = ..; r`: an immutable local bound once stands for its initialiser"""
+        for _ in range(4):
+            if e is not None and e.get("k") == "paren":
+                e = e["e"]
+            elif is_path(e) and e["p"] not in muts and e["p"] != pname and len(hlets.get(e["p"], ())) == 1:
+                e = single_expr(hlets[e["p"]][0]["init"])
+            else:
+                break
+        return e
     e = tail(helper["body"])
     if e is not None and e.get("k") == "return":
         e = e.get("e")
+    e = through_let(e)
     wrapped = False
     if e is not None and e.get("k") == "call" and is_path(e["f"], "Some") and len(e["args"]) == 1:
-        wrapped, e = True, single_expr(e["args"][0])
+        wrapped, e = True, through_let(single_expr(e["args"][0]))
     if e is None or e.get("k") != "match":
         raise NotUnderstood("helper %s is not a match on its string argument" % helper["name"])
     r, ms = alias_chain(e["e"], block_lets(helper["body"]))
@@ -748,6 +762,28 @@ def key_value(e, enum="KeyName"):
     return None
 
 
+def char_class_rows(inner, cvars, within, seen, rows):
+    """`match c { CLASS => KeyName::Char(c), .., _ => return Err(..) }` for a char `c` already known to lie in `within` ("ANY" or a set)
+    and not in `seen`: appends one "chars" row per key-yielding arm (first-match semantics: chars of earlier arms, rejecting ones
+    included, are removed).  `cvars`: names the matched char is bound to."""
+    local = set()
+    for a2 in inner["arms"]:
+        cs = pat_chars(a2["pat"])
+        if cs is None or a2["guard"] is not None:
+            raise NotUnderstood("char class pattern %s" % pat_text(a2["pat"]))
+        if is_err_exit(a2["body"]):
+            if cs == "ANY":
+                break
+            local |= cs
+            continue
+        v = key_value(a2["body"])
+        if v is None or v[0] != "char-var" or (v[1] not in cvars and v[1] not in pat_binding(a2["pat"])) or cs == "ANY":
+            raise NotUnderstood("char class arm value %s" % pat_text(a2["pat"]))
+        eff = cs if within == "ANY" else (cs & within)
+        rows.append({"kind": "chars", "set": sorted(eff - seen - local), "pat": pat_text(a2["pat"]), "line": a2["line"]})
+        local |= cs
+
+
 def single_char_tuple_rows(body, names):
     """`let mut it = S.chars(); match (it.next(), it.next()) { (Some(c @ CLASS), None) => KeyName::Char(c), .., _ => return Err(..) }`:
     exactly the strings of one character, classified by CLASS — the meaning of `S.chars().count() == 1` +
@@ -801,10 +837,25 @@ def single_char_tuple_rows(body, names):
         if not (p0["k"] == "tstruct" and p0["path"] == "Some" and len(p0["elems"]) == 1 and p1["k"] in ("ident", "path") and (p1.get("name") or p1.get("p")) == "None"):
             raise NotUnderstood("arm %s yields a key for something else than a one-character string" % pat_text(pt))
         cs = pat_chars(p0["elems"][0])
-        v = key_value(a2["body"])
-        if cs is None or cs == "ANY" or v is None or v[0] != "char-var" or v[1] not in pat_binding(p0["elems"][0]):
-            raise NotUnderstood("char class arm value %s" % pat_text(pt))
-        rows.append({"kind": "chars", "set": sorted(cs - seen), "pat": pat_text(p0["elems"][0]), "line": a2["line"]})
+        if cs is None:
+            raise NotUnderstood("char class pattern %s" % pat_text(pt))
+        binds = {x["name"] for x in find_all(p0["elems"][0], lambda n: n.get("k") == "ident" and not n.get("mut"))} if cs == "ANY" else pat_binding(p0["elems"][0])
+        nested = single_expr(a2["body"])
+        if nested is not None and nested.get("k") == "match" and is_path(unref(nested["e"])) and unref(nested["e"])["p"] in binds:
+            # `(Some(c), None) => match c { CLASS => KeyName::Char(c), .., _ => return Err(..) }`: the classes are decided one level down
+            char_class_rows(nested, {unref(nested["e"])["p"]}, cs, set(seen), rows)
+        else:
+            v = key_value(a2["body"])
+            if cs == "ANY" or v is None or v[0] != "char-var" or v[1] not in binds:
+                raise NotUnderstood("char class arm value %s" % pat_text(pt))
+            rows.append({"kind": "chars", "set": sorted(cs - seen), "pat": pat_text(p0["elems"][0]), "line": a2["line"]})
+        if cs == "ANY":
+            # every one-character string is decided by this arm; whatever follows sees none
+            closed_after_any = [x for x in m["arms"][m["arms"].index(a2) + 1:]]
+            if any(not is_err_exit(x["body"]) for x in closed_after_any) or not closed_after_any:
+                raise NotUnderstood("arms after %s" % pat_text(pt))
+            closed = True
+            break
         seen |= cs
     if not closed:
         raise NotUnderstood("single-character match has no rejecting catch-all")
@@ -875,20 +926,7 @@ def parse_table_keyname(fn):
                 lets = [s for s in arm["body"].get("stmts", []) if s["k"] == "let" and s["pat"].get("name") == cvar]
                 if len(lets) != 1 or chain(lets[0]["init"])[1][:2] != ["chars", "next"] or chain(lets[0]["init"])[0].get("p") not in (var, param):
                     raise NotUnderstood("single-character arm: char binding")
-                seen = set()
-                for a2 in inner["arms"]:
-                    cs = pat_chars(a2["pat"])
-                    if cs is None or a2["guard"] is not None:
-                        raise NotUnderstood("char class pattern %s" % pat_text(a2["pat"]))
-                    if is_err_exit(a2["body"]):
-                        if cs != "ANY":
-                            seen |= cs
-                        continue
-                    v = key_value(a2["body"])
-                    if v is None or v[0] != "char-var" or (v[1] != cvar and v[1] not in pat_binding(a2["pat"])) or cs == "ANY":
-                        raise NotUnderstood("char class arm value %s" % pat_text(a2["pat"]))
-                    rows.append({"kind": "chars", "set": sorted(cs - seen), "pat": pat_text(a2["pat"]), "line": a2["line"]})
-                    seen |= cs
+                char_class_rows(inner, {cvar}, "ANY", set(), rows)
                 continue
             raise NotUnderstood("guarded arm %s" % pat_text(p))
         if p["k"] in ("wild", "ident") and arm["guard"] is None:
